@@ -32,6 +32,23 @@ pub open spec fn delivered_or_untouched(new: Map<PathV, FileS>, old: Map<PathV, 
     &&& (new.contains_key(dst) ==> (old.contains_key(dst) && new[dst].bytes == old[dst].bytes) || new[dst].bytes == content)
 }
 
+//@extract file=src/bin/copia/meta.rs fn=set_local_mtime
+//@ret r
+//@param+
+    Tracked(w): Tracked<&mut World>
+//@ensures
+    // C14: on success the file's whole-second mtime is max(secs, 0) and no byte of any file changed
+    final(w).log == old(w).log || final(w).log == old(w).log.push(Eff::Touch(pv(path))),
+    r is Ok ==> old(w).files.contains_key(pv(path)) && final(w).files == old(w).files.insert(pv(path),
+        FileS { bytes: old(w).files[pv(path)].bytes, whole: old(w).files[pv(path)].whole, mtime: clamp0(secs as int) }),
+    r is Err ==> final(w).files == old(w).files,
+    (io_ok() && old(w).files.contains_key(pv(path))) ==> r is Ok,
+//@replace /UNIX_EPOCH \+ Duration::from_secs\(/ => epoch_plus_secs(
+//@replace? /u64::try_from\(((?:[^()]|\([^()]*\))*)\)/ => u64_try_from_i64(\1) #all
+//@replace? /secs\.max\(0\)/ => i64_max(secs, 0) #all
+//@replace /(?s)std::fs::File::options\(\)\s*\.write\(true\)\s*\.open\(path\)\?\s*\.set_modified\(t\)/ => vfs_set_modified(path, t, Tracked(w))
+//@end
+
 //@extract file=src/bin/copia/incremental.rs fn=tmp_path
 //@ret r
 //@ensures
